@@ -187,6 +187,9 @@ define void @f() addrspace(3) {
 }
 @a1 = alias i32, i32 addrspace(1)* getelementptr ([4 x i32], [4 x i32] addrspace(1)* @g1, i32 0, i32 1)
 @bc = global i8 addrspace(3)* bitcast (void () addrspace(3)* @f to i8 addrspace(3)*)
+@a3 = alias i32, i32 addrspace(1)* @a2
+@a2 = alias i32, i32 addrspace(1)* @a1
+@a4 = alias i8, i8 addrspace(1)* bitcast (i32 addrspace(1)* @a3 to i8 addrspace(1)*)
 `
 
 var c12inputs = []struct {
